@@ -335,6 +335,7 @@ pub fn run(tier: &str, prop: Prop) -> i32 {
     rep.sub("weights", "a mixed range (run, single, suited, offsuit, two leftovers) under pairs of weights from {1, 0.5, 0.25, 0.3, 0.1, 1/3, 1e-7, 0.99999994, 0, smallest subnormal, 0.7, 0.123456789}", nw, nw, false, json!({"weights": ws.iter().map(|w| format!("{:e}", w)).collect::<Vec<_>>()}));
     rep.bound("weights: -0.0, NaN, infinities and values above 1 are outside 'weights in [0,1]' and are not used");
 
+    cell_pairs(&mut rep, prop, what, thorough);
     failing_writer(&mut rep, prop);
     if prop == Prop::C06 {
         tokens_roundtrip(&mut rep);
@@ -347,6 +348,94 @@ pub fn run(tier: &str, prop: Prop) -> i32 {
         rep.assume("leftover pocket combos may be written more than once (the repository's own test it_formats_incomplete_pocket_jacks pins 'JsJh,JsJd,JsJc,JsJh,...'); the leftover section is compared as a set");
     }
     rep.finish()
+}
+
+/// ranges made of two cells of the chart in different states: the partial states keep or drop the
+/// combo that a formatter / decomposer is most likely to probe (the first combo of the rank pair)
+pub fn cell_pair_contents(thorough: bool) -> Vec<Contents> {
+    let rps = RP::all();
+    let (wa, wb) = (bits(1.0), bits(0.5));
+    let mut out = vec![];
+    // state of a cell: 0 complete a, 1 complete b, 2 only the first combo, 3 all but the first combo,
+    // 4 first half at a / second half at b, 5 alternating a b a b
+    let fill = |c: &mut Contents, rp: &RP, st: u8| {
+        let cs = rp.combos();
+        for (i, cb) in cs.iter().enumerate() {
+            match st {
+                0 => {
+                    c.insert(*cb, wa);
+                }
+                1 => {
+                    c.insert(*cb, wb);
+                }
+                2 => {
+                    if i == 0 {
+                        c.insert(*cb, wa);
+                    }
+                }
+                3 => {
+                    if i != 0 {
+                        c.insert(*cb, wa);
+                    }
+                }
+                4 => {
+                    c.insert(*cb, if i < cs.len() / 2 { wa } else { wb });
+                }
+                _ => {
+                    c.insert(*cb, if i % 2 == 0 { wa } else { wb });
+                }
+            }
+        }
+    };
+    for (i, x) in rps.iter().enumerate() {
+        for (j, y) in rps.iter().enumerate() {
+            if i == j {
+                continue;
+            }
+            // same cell of the grid (AKs beside AKo), neighbours in a row, or (thorough) any two cells
+            let same_cell = match (x, y) {
+                (RP::Suited(a, b), RP::Offsuit(c, d)) | (RP::Offsuit(a, b), RP::Suited(c, d)) => a == c && b == d,
+                _ => false,
+            };
+            let far = !same_cell;
+            for (sx, sy) in [(2u8, 0u8), (3, 0), (4, 0), (5, 1), (0, 2), (1, 3), (2, 2)] {
+                if far && !thorough && !((sx, sy) == (2, 0) || (sx, sy) == (3, 0)) {
+                    continue;
+                }
+                if far && !thorough && (i * 7 + j) % 5 != 0 {
+                    continue;
+                }
+                let mut c = Contents::new();
+                fill(&mut c, x, sx);
+                fill(&mut c, y, sy);
+                out.push(c);
+            }
+        }
+    }
+    out
+}
+
+fn cell_pairs(rep: &mut Report, prop: Prop, what: &str, thorough: bool) {
+    let cs = cell_pair_contents(thorough);
+    let chunk = 256;
+    let nch = (cs.len() + chunk - 1) / chunk;
+    let outs = par_map(nch, |k| {
+        let mut bad = vec![];
+        for c in &cs[k * chunk..((k + 1) * chunk).min(cs.len())] {
+            if let Some(b) = check(prop, c) {
+                if bad.len() < 2 {
+                    bad.push((c.clone(), b));
+                }
+            }
+        }
+        bad
+    });
+    for bad in outs {
+        for (c, b) in bad {
+            record(rep, "cell-pairs", &c, what, b);
+        }
+    }
+    rep.sub("cell-pairs", "two cells of the chart in different states (complete at either weight, only the first combo, all but the first combo, half/half, alternating weights): all 78 same-cell pairs (AKs beside AKo, both directions) in seven state pairs, and ordered pairs of different cells in the partial-then-complete states (a fifth of them in quick, all 28,392 in every state pair in thorough)", cs.len() as u64, cs.len() as u64, thorough, json!({}));
 }
 
 struct Limited {
